@@ -64,6 +64,8 @@ def run(tier, rep):
         cases.append((str(mid), bytes([mid >> 4, (mid & 0xF) << 4, rnd.randrange(256), rnd.randrange(256)])))
     cases.append(("4076_250", bytes([0xFE, 0xC1, 0xF4, 0x00])))
     nops = 0
+    # the same payload is constructed again later (and its later copies are attacked too)
+    cases = cases + [c for c in cases if c[0] in ("1005", "1007", "1008", "1029", "1033", "1230", "1077", "4076_201") or rnd.random() < 0.25]
     for ident, pl in cases:
         lab = rnd.choice([1, 2])
         rid, r, msg = corp.add(pl, lab, keep_msg=True, ident=ident)
